@@ -5,6 +5,7 @@ import (
 	"errors"
 	"fmt"
 	"testing"
+	"time"
 
 	"golang.org/x/crypto/bcrypt"
 	"pgregory.net/rapid"
@@ -401,6 +402,101 @@ func TestC17(t *testing.T) {
 	c17GrammarTables(c, t)
 	c17CostField(c, t, haveClib)
 	c17FieldFill(c, t)
+	c17ReducedRounds(c, t) // must stay last: it may leave goroutines running until the process exits
+}
+
+// c17ReducedRounds is the time-free check for costs that cannot be run: a hash
+// string that CLAIMS cost c in 20..31 but whose digest was computed by the
+// reference with only 0, 1, 2, 4 or 16 key-schedule rounds must never be
+// accepted.  CompareHashAndPassword runs in a goroutine; returning nil within
+// the window is a violation, an error or still running after the window is
+// fine (the goroutine is abandoned; at most four per process).  Likewise
+// GenerateFromPassword(pw, 31): if it returns at all within the window its
+// digest must not be a reduced-round digest for its own salt.
+func c17ReducedRounds(c *ev.Collector, t *testing.T) {
+	type rcase struct {
+		cost   int
+		rounds uint64
+	}
+	cases := []rcase{{31, 0}, {31, 1}, {30, 0}, {31, 16}, {29, 0}, {28, 2}, {31, 2}, {27, 4}, {26, 0}, {31, 4}, {24, 1}, {20, 0}}
+	pw := []byte("reduced rounds")
+	key := append(append([]byte{}, pw...), 0)
+	type result struct {
+		what string
+		err  error
+		pan  error
+		hash []byte
+	}
+	done := make(chan result, 8)
+	launched := 0
+	for i, rc := range cases {
+		if !ev.Mine(i) || launched >= 3 {
+			continue
+		}
+		salt := detBytes("c17.rr.salt", i, 16)
+		digest := refkdf.BcryptRawRounds(key, salt, rc.rounds)
+		h := []byte(fmt.Sprintf("$2a$%02d$%s%s", rc.cost, refkdf.BcryptB64Encode(salt), refkdf.BcryptB64Encode(digest[:23])))
+		if gc, err, pan := c17Cost(h); pan != nil || err != nil || gc != rc.cost {
+			what := fmt.Sprintf("Cost(%s) = %d, %v, %v; want %d", h, gc, err, pan, rc.cost)
+			c.Violation(what, "")
+			t.Fatalf("VF-VIOLATION: property=C17 %s", what)
+		}
+		what := fmt.Sprintf("CompareHashAndPassword(%s, %q): the string claims cost %d but its digest was computed with %d key-schedule rounds", h, pw, rc.cost, rc.rounds)
+		launched++
+		go func() {
+			var err error
+			pan := noPanic(func() { err = bcrypt.CompareHashAndPassword(append([]byte{}, h...), append([]byte{}, pw...)) })
+			done <- result{what: what, err: err, pan: pan}
+		}()
+	}
+	launched++
+	go func() {
+		var h []byte
+		var err error
+		pan := noPanic(func() { h, err = bcrypt.GenerateFromPassword(append([]byte{}, pw...), bcrypt.MaxCost) })
+		done <- result{what: "generate", err: err, pan: pan, hash: h}
+	}()
+	window := time.After(2 * time.Second)
+	returned := 0
+wait:
+	for returned < launched {
+		select {
+		case r := <-done:
+			returned++
+			if r.pan != nil {
+				what := fmt.Sprintf("reduced-round case: %s: %v", r.what, r.pan)
+				c.Violation(what, "")
+				t.Fatalf("VF-VIOLATION: property=C17 %s", what)
+			}
+			if r.what == "generate" {
+				if r.err == nil {
+					if _, pc, salt, digest, ok := c17StrictParse(r.hash); ok && pc == bcrypt.MaxCost {
+						for _, rounds := range []uint64{0, 1, 2, 4, 16} {
+							if bytes.Equal(refkdf.BcryptRawRounds(key, salt, rounds)[:23], digest) {
+								what := fmt.Sprintf("GenerateFromPassword(%q, %d) = %s: the digest is what %d key-schedule rounds give, not 2^%d", pw, bcrypt.MaxCost, r.hash, rounds, bcrypt.MaxCost)
+								c.Violation(what, "")
+								t.Fatalf("VF-VIOLATION: property=C17 %s", what)
+							}
+						}
+					}
+				}
+				c.Case(true, "reduced-rounds|generate31|returned", "reduced-rounds:generate-cost31", "reduced-rounds:returned-in-window")
+				continue
+			}
+			if r.err == nil {
+				what := r.what + ": accepted"
+				c.Violation(what, "")
+				t.Fatalf("VF-VIOLATION: property=C17 %s", what)
+			}
+			c.Case(true, "reduced-rounds|compare|rejected", "reduced-rounds:forged-hash", "reduced-rounds:returned-in-window")
+		case <-window:
+			break wait
+		}
+	}
+	for i := returned; i < launched; i++ {
+		c.Case(true, fmt.Sprintf("reduced-rounds|still-running|%d", i), "reduced-rounds:still-running-after-window(abandoned)")
+	}
+	c.Assumption("reduced-round forgeries at costs 20..31 are decided without running the cost: acceptance within a 2 s window is a violation, an error or no answer is not; up to four goroutines are abandoned at the end of the test")
 }
 
 // c17FieldFill fills each field of the hash grammar (version characters, cost
